@@ -159,3 +159,18 @@ Proof. split; [exact rawRead_robust|exact scalar_table_robust]. Qed.
 Print Assumptions C01_case_tags_translated.
 Print Assumptions C01_rawRead_exact_translated.
 Print Assumptions C01_robust_translated.
+
+(* phase 4: the conformance theorem over the decoders GENERATED from the source (Gen/C03gen.v gen_any, gen_dyn,
+   gen_rawRead): exact value, exact consumption, every trailing input *)
+Theorem C01_decode_exact_translated : forall f name t rest fuel,
+  wf t -> nest_ok t -> name_ok name = true -> (length (payload t) < fuel)%nat ->
+  run_flat (Decode f (gen_any fuel max_open)) (doc f name t ++ rest) = FOk (root_name f name, value_of t) rest /\
+  run_flat (Decode f (gen_dyn fuel max_open)) (doc f name t ++ rest) = FOk (root_name f name, dyn_of t) rest /\
+  run_flat (gen_rawRead fuel max_open (tag_id t)) (payload t ++ rest) = FOk tt rest.
+Proof. exact decode_exact_translated. Qed.
+Theorem C01_decoder_robust_translated : forall fuel dep,
+  (forall id, robust (gen_any fuel dep id)) /\ (forall t id, robust (gen_ty fuel dep t id)) /\ (forall id, robust (gen_dyn fuel dep id)).
+Proof. exact decoder_robust_translated. Qed.
+
+Print Assumptions C01_decode_exact_translated.
+Print Assumptions C01_decoder_robust_translated.
